@@ -52,7 +52,7 @@ def race_tier(chk, ok_c):
         txt = open(os.path.join(chk.bdir, races[0])).read()
         import re
         frames = re.findall(r'^\s+([\w\./\(\)\*\[\]]+)\(\)\n\s+(/[^\s]+):(\d+)', txt, re.M)
-        where = next(('%s %s:%s' % (fn, os.path.basename(p), ln) for fn, p, ln in frames if '/repo/codec/' in p), 'unknown')
+        where = next(('%s %s:%s' % (fn, os.path.basename(p), ln) for fn, p, ln in frames if os.path.join(vlib.REPO, 'codec') + '/' in p), 'unknown')
         chk.report('counterexample', 'the race detector reported a data race while RPC calls ran concurrently over one connection',
                    case={'first_codec_frame': where, 'report_head': txt[:1500]}, cls='race:' + where.split(' ')[0], stream='race')
     chk.cov['distribution']['race.reports'] = len(races)
